@@ -141,7 +141,8 @@ def canon_grain(g, conv):
             "tr": [conv(v) for v in g["tr"]] if len(g["tr"]) else None,
             "name": g["nm"] if g["hasnm"] else None,
             "npks": g["npks"] if g["npks"] >= 0 else None,
-            "nuniq": g["nuniq"] if g["nuniq"] >= 0 else None}
+            "nuniq": g["nuniq"] if g["nuniq"] >= 0 else None,
+            "ii": g.get("ii") or None}
 
 
 def canon_file(f, tok):
@@ -187,14 +188,15 @@ def canon_world(w, tok):
 
 # ------------------------------------------------------------------------------------------
 # comparison
-def diff(a, b, path=""):
-    """first difference between two canonical structures (None when equal); a = expected"""
+def diff(a, b, path="", signed=False):
+    """first difference between two canonical structures (None when equal); a = expected.
+    signed: +0.0 and -0.0 differ (the "exactly" of the hdf routes; used by the step laws)"""
     if isinstance(a, dict) and isinstance(b, dict):
         ka, kb = set(a), set(b)
         if ka != kb:
             return "%s: keys expected %s got %s" % (path, sorted(ka, key=str), sorted(kb, key=str))
         for k in sorted(a, key=str):
-            d = diff(a[k], b[k], path + "/" + str(k))
+            d = diff(a[k], b[k], path + "/" + str(k), signed)
             if d:
                 return d
         return None
@@ -202,14 +204,14 @@ def diff(a, b, path=""):
         if len(a) != len(b):
             return "%s: length expected %d got %d (%r vs %r)" % (path, len(a), len(b), _short(a), _short(b))
         for i, (x, y) in enumerate(zip(a, b)):
-            d = diff(x, y, path + "[%d]" % i)
+            d = diff(x, y, path + "[%d]" % i, signed)
             if d:
                 return d
         return None
     if isinstance(a, bool) != isinstance(b, bool):
         return "%s: expected %r got %r" % (path, a, b)
     if isinstance(a, float) and isinstance(b, float):
-        if a == b:
+        if a == b and not (signed and a == 0.0 and math.copysign(1.0, a) != math.copysign(1.0, b)):
             return None
         return "%s: expected %r got %r" % (path, a, b)
     if type(a) != type(b) and not (isinstance(a, (int, Fraction)) and isinstance(b, (int, Fraction))):
@@ -278,13 +280,16 @@ def parse_grain_text(path):
                 cur["npks"] = int(line.split()[1])
             elif line.startswith("#nuniq "):
                 cur["nuniq"] = int(line.split()[1])
+            elif line.startswith("#intensity_info "):
+                cur["ii"] = line[len("#intensity_info "):].rstrip("\n").rstrip()
             elif line.startswith("#"):
                 continue
             elif line.strip():
                 rows.append([Fraction(t) for t in line.split()])
                 if len(rows) == 3:
                     gl.append({"ubi": rows[0] + rows[1] + rows[2], "tr": cur.get("tr"),
-                               "name": cur.get("name"), "npks": cur.get("npks"), "nuniq": cur.get("nuniq")})
+                               "name": cur.get("name"), "npks": cur.get("npks"), "nuniq": cur.get("nuniq"),
+                               "ii": cur.get("ii")})
                     cur, rows = {}, []
     return {"k": "gtext", "gl": gl}
 
@@ -313,11 +318,13 @@ def grain_proj(g):
     nm = getattr(g, "name", None)
     npks = getattr(g, "npks", None)
     nuniq = getattr(g, "nuniq", None)
+    ii = getattr(g, "intensity_info", None)
     return {"ubi": [float(v) for v in np.asarray(g.ubi).ravel()],
             "tr": None if g.translation is None else [float(v) for v in np.asarray(g.translation).ravel()],
             "name": None if nm is None else _dec(nm).rstrip(),
             "npks": None if npks is None else int(_dec(npks)),
-            "nuniq": None if nuniq is None else int(_dec(nuniq))}
+            "nuniq": None if nuniq is None else int(_dec(nuniq)),
+            "ii": None if ii is None else _dec(ii).rstrip()}
 
 
 def observe_hdf(path):
@@ -335,9 +342,10 @@ def observe_hdf(path):
                 for n in grp:
                     if n in ("row", "col"):
                         continue
-                    px[n] = {"ty": kind(grp[n].dtype), "data": tolist(grp[n][:]),
+                    px[n] = {"ty": grp[n].dtype.str, "data": tolist(grp[n][:]),
                              "meta": {k: pytype(_dec(v)) for k, v in grp[n].attrs.items()}}
                 groups[g] = {"tag": "sparse", "shape": [int(grp.attrs["shape0"]), int(grp.attrs["shape1"])],
+                             "itype": _dec(grp.attrs["itype"]),
                              "row": tolist(grp["row"][:]) if "row" in grp else [],
                              "col": tolist(grp["col"][:]) if "col" in grp else [],
                              "px": px}
@@ -349,11 +357,13 @@ def observe_hdf(path):
                     nm = gg["name"][()] if "name" in gg else None
                     npks = gg["npks"][()] if "npks" in gg else None
                     nuniq = gg["nuniq"][()] if "nuniq" in gg else None
+                    ii = gg["intensity_info"][()] if "intensity_info" in gg else None
                     gl.append({"ubi": [float(v) for v in gg["ubi"][:].ravel()],
                                "tr": [float(v) for v in gg["translation"][:].ravel()] if "translation" in gg else None,
                                "name": None if nm is None else _dec(nm).rstrip(),
                                "npks": None if npks is None else int(_dec(npks)),
-                               "nuniq": None if nuniq is None else int(_dec(nuniq))})
+                               "nuniq": None if nuniq is None else int(_dec(nuniq)),
+                               "ii": None if ii is None else _dec(ii).rstrip()})
                 groups[g] = {"tag": "grains", "gl": gl}
     return {"k": "hdf", "groups": groups}
 
@@ -394,24 +404,36 @@ def observe_obj(x, family):
     if family == "sparse":
         px = {}
         for n, a in x.pixels.items():
-            px[n] = {"ty": kind(a.dtype), "data": tolist(a),
+            px[n] = {"ty": a.dtype.str, "data": tolist(a),
                      "meta": {k: pytype(_dec(v)) for k, v in dict(x.meta.get(n, {}) or {}).items()}}
-        return {"k": "sparse", "shape": [int(x.shape[0]), int(x.shape[1])], "row": tolist(x.row),
+        itype = x.row.dtype.name if x.row.dtype == x.col.dtype else "%s/%s" % (x.row.dtype.name, x.col.dtype.name)
+        return {"k": "sparse", "shape": [int(x.shape[0]), int(x.shape[1])], "itype": itype, "row": tolist(x.row),
                 "col": tolist(x.col), "px": px}
     raise ValueError(family)
 
 
 # ------------------------------------------------------------------------------------------
 # building real seed objects from the model's seed objects
-def build_obj(x, family, vals=None):
+# the model's sparse frames say "i" / "f" for a pixel array and nothing about the index type: one
+# concrete choice per history (Storage.tla header: covariance); the round trip must keep dtype.str
+SPARSE_DTYPES = [{"i": "<i4", "f": "<f8", "itype": "uint16"},
+                 {"i": "<u2", "f": "<f4", "itype": "uint16"},
+                 {"i": "<i8", "f": "<f8", "itype": "uint32"},
+                 {"i": "|u1", "f": "<f4", "itype": "int32"}]
+
+
+def build_obj(x, family, vals=None, coldt=None, spdt=None):
     """x = raw model object (json).  vals: optional function (path, modelval) -> python number used by
-    the widened replay to substitute arbitrary doubles for the model's alphabet."""
+    the widened replay to substitute arbitrary doubles for the model's alphabet.  coldt: optional
+    function title -> numpy dtype of the in-memory column (default float64).  spdt: SPARSE_DTYPES entry"""
     from ImageD11 import columnfile, parameters, grain, sparseframe
     sub = vals or (lambda where, v, isint: (vint(v) if isint else vfloat(v)))
     if family == "table":
         d = {}
         for t in x["titles"]:
             d[t] = np.array([float(sub(("col", t, i), v, False)) for i, v in enumerate(D(x["cols"])[t])], float)
+            if coldt is not None:
+                d[t] = d[t].astype(coldt(t))
         cf = columnfile.colfile_from_dict(d)
         for n, tv in D(x["pars"]).items():
             cf.parameters.set(n, _pyval(tv, sub, ("par", n)))
@@ -430,17 +452,22 @@ def build_obj(x, family, vals=None):
                 gr.npks = g["npks"]
             if g["nuniq"] >= 0:
                 gr.nuniq = g["nuniq"]
+            if g.get("ii"):
+                gr.intensity_info = g["ii"]
             out.append(gr)
         return out
     if family == "sparse":
-        spf = sparseframe.sparse_frame(np.array(x["row"]), np.array(x["col"]), tuple(x["shape"]))
+        spdt = spdt or SPARSE_DTYPES[0]
+        spf = sparseframe.sparse_frame(np.array(x["row"]), np.array(x["col"]), tuple(x["shape"]),
+                                       itype=np.dtype(spdt["itype"]))
         px = D(x["px"])
         for n in x["pxo"]:
             p = px[n]
             if p["ty"] == "i":
-                a = np.array([vint(v) for v in p["data"]], np.int32)
+                a = np.array([vint(v) for v in p["data"]], np.dtype(spdt["i"]))
             else:
-                a = np.array([float(sub(("px", n, i), v, False)) for i, v in enumerate(p["data"])], np.float64)
+                a = np.array([float(sub(("px", n, i), v, False)) for i, v in enumerate(p["data"])],
+                             np.float64).astype(np.dtype(spdt["f"]))
             meta = None
             if p["hasmeta"]:
                 meta = {k: _pyval(tv, None, None) for k, tv in D(p["meta"]).items()}
@@ -463,14 +490,16 @@ def _pyval(tv, sub, where):
 class Runner(object):
     """executes one behaviour with real files under `root` (a fresh directory)"""
 
-    def __init__(self, family, root, seeds_raw, variant=0, vals=None):
+    def __init__(self, family, root, seeds_raw, variant=0, vals=None, coldt=None, paths=("p1", "p2")):
         self.family = family
         self.root = root
-        self.variant = variant
+        self.variant = variant % 2          # API route variant (open h5py.File / loadparameters)
+        self.spdt = SPARSE_DTYPES[variant % len(SPARSE_DTYPES)]
         os.makedirs(root)
-        self.paths = {"p1": os.path.join(root, "p1.dat"), "p2": os.path.join(root, "p2.dat")}
+        self.paths = {p: os.path.join(root, p + ".dat") for p in paths}
         self.textkind = {}
-        self.mem = {o: build_obj(x, family, vals) for o, x in seeds_raw.items()}
+        self.mem = {o: build_obj(x, family, vals, (lambda t, _o=o: coldt(_o, t)) if coldt else None, self.spdt)
+                    for o, x in seeds_raw.items()}
         self.res = "ok"
         self.exc = None
 
@@ -479,6 +508,28 @@ class Runner(object):
         if isinstance(s, str) and s.startswith("@"):
             return self.paths.get(s[1:], s[1:])
         return s
+
+    def adapt(self, cw):
+        """transport a canonical MODEL world to this history's concrete sparse dtypes (numpy casts only)"""
+        if self.family != "sparse":
+            return cw
+
+        def px(pxs):
+            out = {}
+            for n, q in pxs.items():
+                dt = np.dtype(self.spdt[q["ty"]])
+                out[n] = {"ty": dt.str, "data": np.array(q["data"]).astype(dt).tolist(), "meta": q["meta"]}
+            return out
+        for f in cw["fs"].values():
+            for grp in f.get("groups", {}).values():
+                if grp.get("tag") == "sparse":
+                    grp["px"] = px(grp["px"])
+                    grp["itype"] = self.spdt["itype"]
+        for m in cw["mem"].values():
+            if m.get("k") == "sparse":
+                m["px"] = px(m["px"])
+                m["itype"] = self.spdt["itype"]
+        return cw
 
     def close(self):
         self.mem = {}
@@ -520,6 +571,16 @@ class Runner(object):
                     h.close()
             else:
                 columnfile.colfile_to_hdf(m[o], path, name=g)
+        elif op == "ConvHdf":
+            src = [q for k, q in sorted(self.paths.items()) if k != a["p"]][0]
+            if self.variant == 1:
+                h = h5py.File(path, "a")
+                try:
+                    columnfile.colfile_to_hdf(src, h, name=g)
+                finally:
+                    h.close()
+            else:
+                columnfile.colfile_to_hdf(src, path, name=g)
         elif op == "WriteHdfObj":
             columnfile.colfileobj_to_hdf(m[o], path, name=g)
         elif op == "ReadHdf":
@@ -575,7 +636,8 @@ class Runner(object):
 
 
 FAMILY_OF_OP = {}
-for _f, _ops in {"table": ["WriteText", "ReadText", "WriteHdf", "WriteHdfObj", "ReadHdf", "ReadAuto", "ReadMmap", "DropRow"],
+for _f, _ops in {"table": ["WriteText", "ReadText", "WriteHdf", "WriteHdfObj", "ReadHdf", "ReadAuto", "ReadMmap", "DropRow",
+                           "ConvHdf"],
                  "pars": ["SavePars", "LoadFresh", "LoadInto"],
                  "grains": ["WriteGrains", "ReadGrains", "WriteUbis", "ReadUbis", "WriteGrainsH5", "ReadGrainsH5",
                             "PutGrainH5", "Reverse"],
@@ -603,12 +665,14 @@ def unordered(w):
     return out
 
 
-def replay(family, hist, seeds_raw, expA, expF, root, variant=0, relations=None):
+def replay(family, hist, seeds_raw, expA, expF, root, variant=0, relations=None, prep=None):
     """Execute hist[1:] and compare after the seeding and after every step with the model worlds.
     expA / expF : lists (len(hist)) of raw model worlds ("as is" / "intended").
     relations : optional callable(family, op, prev_obs, cur_obs, counter) raising on a broken step law
+    prep : optional callable applied to every canonical model world before the comparison (the title
+           substitution of the title enumeration; seeds_raw must already carry the substituted titles)
     returns dict(okA, okF, firstA, firstF, nsteps, exc=[...])"""
-    r = Runner(family, root, seeds_raw, variant)
+    r = Runner(family, root, seeds_raw, variant, paths=sorted(expA[0]["fs"]))
     out = {"okA": True, "okF": True, "firstA": None, "firstF": None, "sigA": None, "sigF": None,
            "exc": [], "steps": 0, "order_dev": 0, "checks": 0}
     nchecks = [0]
@@ -636,7 +700,9 @@ def replay(family, hist, seeds_raw, expA, expF, root, variant=0, relations=None)
             for key, exp in (("A", expA[i]), ("F", expF[i])):
                 if not out["ok" + key]:
                     continue
-                cw = canon_world(exp, r.tok)
+                cw = r.adapt(canon_world(exp, r.tok))
+                if prep is not None:
+                    cw = prep(cw)
                 d = diff(unordered(cw), ureal)
                 if d is None and diff(cw, real) is not None:
                     out["order_dev"] += 1
